@@ -100,6 +100,9 @@ class Execution:
         self.stopped = False
         self.line_targets = None  # {worker id: index of the line event that becomes a scheduling point}
         self.line_root = None
+        # digest of the in-memory objects the workers share (thread mode) or own (process mode): part of the state key, and
+        # recorded into a worker's observations at the start of each of its steps (what it can read between two points)
+        self.mem_digest = None
 
     # ---- worker side
     def in_worker(self):
@@ -188,8 +191,9 @@ class Execution:
     def state_key(self):
         files = vfs.fs.snapshot()
         locks = tuple((i, l.holder) for i, l in enumerate(self.locks))
-        ws = tuple((w.wid, w.done, w.npoints, w.pending[0] if w.pending else None, tuple(w.obs), repr(type(w.exc).__name__) if w.exc else None) for w in self.workers)
-        return (files, locks, ws)
+        ws = tuple((w.wid, w.done, w.npoints, w.pending[0] if w.pending else None, hash(tuple(w.obs)), repr(type(w.exc).__name__) if w.exc else None) for w in self.workers)
+        mem = self.mem_digest() if self.mem_digest is not None else None
+        return (files, locks, ws, mem)
 
     def run(self, schedule, stop=False, max_steps=10000, policy=None):
         """returns self. `schedule`: worker ids for the first decisions (a non-enabled id is a hard error)."""
@@ -228,6 +232,8 @@ class Execution:
                 self.enabled_log.append(tuple(en))
                 self.last = c
                 w = self.workers[c]
+                if self.mem_digest is not None:
+                    w.obs.append(("mem", self.mem_digest()))
                 w.go.release()
                 if not self.back.acquire(timeout=120):  # until it reaches its next point or finishes
                     raise RuntimeError(f"worker {c} neither reached a scheduling point nor finished within 120 s (blocked on something the scheduler does not own)")
@@ -256,6 +262,30 @@ class Execution:
 
 
 # ------------------------------------------------------------------------------------------------ explorers
+def digest(obj, depth=0):
+    """generic digest of an object graph's plain data (lists, dicts, sets, scalars, paths, nested objects' __dict__)"""
+    if depth > 6:
+        return "..."
+    if obj is None or isinstance(obj, (bool, int, float, str, bytes)):
+        return repr(obj)
+    if isinstance(obj, (list, tuple)):
+        return "[" + ",".join(digest(x, depth + 1) for x in obj) + "]"
+    if isinstance(obj, (set, frozenset)):
+        return "{" + ",".join(sorted(digest(x, depth + 1) for x in obj)) + "}"
+    if isinstance(obj, dict):
+        return "{" + ",".join(sorted(digest(k, depth + 1) + ":" + digest(v, depth + 1) for k, v in obj.items())) + "}"
+    if hasattr(obj, "__fspath__"):
+        return repr(str(obj))
+    if hasattr(obj, "dtype") and hasattr(obj, "tobytes"):
+        return f"nd({obj.dtype},{getattr(obj, 'shape', ())},{hash(obj.tobytes())})"
+    if isinstance(obj, SchedLock):
+        return "lock"
+    d = getattr(obj, "__dict__", None)
+    if d is not None and depth < 4:
+        return type(obj).__name__ + digest(d, depth + 1)
+    return type(obj).__name__
+
+
 def explore_states(make, judge_terminal, max_states=200000):
     """Explicit-state BFS with stateless replay and state caching.
     make() -> (bodies, locks, context): builds a fresh initial configuration (fresh file system content, fresh locks);
@@ -268,6 +298,8 @@ def explore_states(make, judge_terminal, max_states=200000):
     def replay(schedule):
         bodies, locks, ctx = make()
         ex = Execution(bodies, locks)
+        if isinstance(ctx, dict) and ctx.get("mem_digest") is not None:
+            ex.mem_digest = ctx["mem_digest"]
         ex.run(schedule, stop=True)
         stats["executions"] += 1
         return ex, ctx
